@@ -287,12 +287,36 @@ def a5(repo, res):
                         getattr(node, "lineno", None)))
 
 
+def recipes_a5b(repo, res):
+    """A5b row recipes: for every case of lenpath.py, how each row of the resulting position / orientation paths is computed from the
+    rows of the inputs (`position[1] = rot(i[0], c[1] - p[1]) + p[1]`).  The recipes of the current tree are compared with those recorded
+    from the reference tree (sa/lenpath_golden.json): the lengths may all agree while a row is taken from another index (anchor from the tail
+    of the parent path, subtraction before padding instead of after).  Independent of the code shape: only the evaluated recipe counts."""
+    import json
+    import lenpath
+    rec, und = lenpath.all_recipes(repo)
+    gold = json.load(open(lenpath.GOLDEN))
+    mine = [k for k in gold if k.startswith(('set|',))]
+    if und:
+        res.undecided.append("A5b: row recipes not evaluated (" + "; ".join(und)[:160] + ")")
+        return
+    diff = [k for k in mine if k in rec and rec[k] != gold[k]]
+    res.evaluations += len(mine)
+    res.ob("A5b:row recipes equal the reference", not diff, {"rule": "A5b", "cases_compared": sum(1 for k in mine if k in rec), "cases_that_differ": len(diff)})
+    if diff:
+        k = diff[0]
+        line = next((a + "   [reference: " + b + "]") for a, b in zip(rec[k], gold[k]) if a != b)
+        res.add(Finding("A5b", "magpylib/_src/obj_classes", "path plumbing", "row recipe: " + k.split("|", 1)[0],
+                        f"{len(diff)} of {len(mine)} cases compute a row of the resulting path from other input rows than the reference tree, e.g. {k.split('|', 1)[1]}: {line[:400]}"))
+
+
 def run(repo, res, tier):
     res.rules = ["A1 position setter algebra", "A2 orientation setter algebra", "A3 recursion coverage / argument forwarding", "A4 position getter returns a fresh array", "A5 LEN-PATH: setters keep every path at the new length", "M1 in-place pose writes only on the updated object", "V1 pose validators return copies"]
     frame_rules.c10_algebra(repo, res)
     a3(repo, res)
     a4(repo, res)
     a5(repo, res)
+    recipes_a5b(repo, res)
     import origin_rules
     origin_rules.pose_mutations(repo, res, rule="M1")
     origin_rules.validators_fresh(repo, res, rule="V1", only=("check_format_input_anchor", "check_format_input_vector", "check_format_input_orientation", "make_float_array"))
